@@ -68,7 +68,10 @@ pub fn run(a: &Args) {
     let mut bads: Vec<Value> = vec![];
     let mut maxlen = 0usize;
     let load = a.get("load").is_some();
-    for v in &reps {
+    let mut nreps = 0usize;
+    for v in reps {
+        nreps += 1;
+        let v = &v;
         let text = text_of(&v["text"]);
         n += 1;
         if !distinct.insert(text.clone()) {
